@@ -7,6 +7,14 @@ import Mps.SrcPins.SrcCmpKeygen
 namespace Mps.Src.SrcCmpKeygen
 set_option maxRecDepth 65536
 
+theorem gen_f_keygen : MpsGen.SrcCmpKeygen.f_keygen = Mps.SrcPins.SrcCmpKeygen.f_keygen := by decide
+theorem gen_f_round1 : MpsGen.SrcCmpKeygen.f_round1 = Mps.SrcPins.SrcCmpKeygen.f_round1 := by decide
+theorem gen_f_round2 : MpsGen.SrcCmpKeygen.f_round2 = Mps.SrcPins.SrcCmpKeygen.f_round2 := by decide
+theorem gen_f_round3 : MpsGen.SrcCmpKeygen.f_round3 = Mps.SrcPins.SrcCmpKeygen.f_round3 := by decide
+theorem gen_f_round4 : MpsGen.SrcCmpKeygen.f_round4 = Mps.SrcPins.SrcCmpKeygen.f_round4 := by decide
+theorem gen_f_round5 : MpsGen.SrcCmpKeygen.f_round5 = Mps.SrcPins.SrcCmpKeygen.f_round5 := by decide
+theorem gen_files : MpsGen.SrcCmpKeygen.files = Mps.SrcPins.SrcCmpKeygen.files := by decide
+
 theorem gen_source :
     MpsGen.SrcCmpKeygen.f_keygen = Mps.SrcPins.SrcCmpKeygen.f_keygen ∧
     MpsGen.SrcCmpKeygen.f_round1 = Mps.SrcPins.SrcCmpKeygen.f_round1 ∧
@@ -14,7 +22,7 @@ theorem gen_source :
     MpsGen.SrcCmpKeygen.f_round3 = Mps.SrcPins.SrcCmpKeygen.f_round3 ∧
     MpsGen.SrcCmpKeygen.f_round4 = Mps.SrcPins.SrcCmpKeygen.f_round4 ∧
     MpsGen.SrcCmpKeygen.f_round5 = Mps.SrcPins.SrcCmpKeygen.f_round5 ∧
-    MpsGen.SrcCmpKeygen.files = Mps.SrcPins.SrcCmpKeygen.files := by
-  refine ⟨by decide, by decide, by decide, by decide, by decide, by decide, by decide⟩
+    MpsGen.SrcCmpKeygen.files = Mps.SrcPins.SrcCmpKeygen.files :=
+  ⟨gen_f_keygen, gen_f_round1, gen_f_round2, gen_f_round3, gen_f_round4, gen_f_round5, gen_files⟩
 
 end Mps.Src.SrcCmpKeygen
